@@ -36,11 +36,11 @@ SigInt == /\ Is("Cancel") /\ sigint' = TRUE
           /\ UNCHANGED <<delay, lastProbe, doneAt, cancelAt, injected, printed, returnedAt>>
 \* (the watcher that logs CtxCancelled runs in its own goroutine and may log after Returned; its clause is checked wherever it appears)
 \* the program does not exit before the delay is over, exits within bounded time after it,
-\* and every reply that arrived in time has been printed (exit delay at its default or larger)
+\* and every reply that arrived in time has been printed (checked for delays >= 600 ms: 300 ms of slack for the result path)
 Returned == /\ Is("Returned") /\ returnedAt = -1
             /\ (~sigint => (doneAt # -1 /\ lastProbe # -1 /\ Ev.t >= lastProbe + delay))        \* NoEarlyExit
             /\ (cancelAt # -1 => Ev.t <= cancelAt + Bound)                                       \* ExitsAfterDelay
-            /\ ((~sigint /\ delay >= 300000) => \A x \in injected : x[2] <= SafeFrac1000 => x[1] \in printed)
+            /\ ((~sigint /\ delay >= 600000) => \A x \in injected : x[2] <= SafeFrac1000 => x[1] \in printed)
             /\ returnedAt' = Ev.t
             /\ UNCHANGED <<delay, lastProbe, doneAt, cancelAt, sigint, injected, printed>>
 Next == Reset \/ LastProbe \/ DoneSeen \/ Inject \/ Line \/ CtxCancelled \/ SigInt \/ Returned
